@@ -1,8 +1,18 @@
 HOOK_COMMITS = []
 NOT_APPLICABLE = {}
 E1_NOTE = "Trusts: the Go toolchain, rapid's generator/shrinker, cosmos-sdk baseapp/store as the execution substrate, and the harness' state readers (which use the repository's own keeper getters). Histories are bounded (blocks, txs per block, a fixed set of pools/assets); absence of violations beyond the generated histories is not established."
+E1_TECH = "stateful property-based testing (pgregory.net/rapid): generated signed-tx histories on the real app via ABCI, oracle evaluated on every committed block, shrunk trace replay"
+def e1(ref, text):
+    return dict(engine="E1-chain", design_ref=ref, technique=E1_TECH, text=text + " Exploration-level: held on every generated history; failures shrink to a replayable trace.", note=E1_NOTE)
 META = {
-    "C01": dict(engine="E1-chain", design_ref="§3 C01", technique="stateful property-based testing (rapid): generated tx histories on the real app, invariant over every committed block",
-                text="Generated search over multi-block, multi-module transaction histories executed through the real ABCI path; after every committed block the pool book is compared with the bank balance of the pool address (harness-known donations are the only tolerated surplus) and the per-denom liquidity total with the sum of reserves. Exploration-level: held on every generated history; failures shrink to a replayable trace.",
-                note=E1_NOTE),
+    "C01": e1("§3 C01", "After every committed block of a generated multi-module history the pool book is compared with the bank balance of the pool address (harness-known donations are the only tolerated surplus) and the per-denom liquidity total with the sum of reserves."),
+    "C02": e1("§3 C02", "After every block: pool TotalShares == bank supply of the share denom == sum of accounts' committed shares == commitment custody balance; supply moves only in blocks with a join-type / exit-type event on that pool."),
+    "C06": e1("§3 C06", "After every block: stablestake TotalValue == module cash + sum over stored debts of (borrowed + interest stacked - interest paid), exactly, across bonds, unbonds, leveragelp opens/closes/liquidations and long accrual gaps."),
+    "C08": e1("§3 C08", "After every block: leveragelp pool total == sum of positions; each position's shares == shares committed at its own address; open counter == stored positions; addresses of closed positions hold no shares."),
+    "C09": e1("§3 C09", "After every block: perpetual pool custody/liabilities/collateral per side and asset == sums over stored MTPs; open counter == stored MTPs; amm reserve >= total custody per asset."),
+    "C11": e1("§3 C11", "After every block: accounted pool total == amm reserve + perpetual liabilities - custody, and the non-amm part == liabilities - custody, for every asset."),
+    "C12": e1("§3 C12", "After every block: TotalCommitted == sum of accounts per denom (known finding F04 compensated exactly), custody >= committed + claimed for bank-backed denoms, and a harness-kept lock model (oracle-pool shares locked one hour) is never bypassed by an owner withdrawal."),
+    "C13": e1("§3 C13", "After every block, per bank-backed reward denom: module balance - recomputed credited-unclaimed rewards - unfunded incentive remainder is >= 0 and never decreases from block to block."),
+    "C15": e1("§3 C15", "Supply ledger across every block: external denoms unchanged; uelys minted at most what the linear vesting schedules of the block's claimers (and the protocol's own provider-reward claimer) release plus vest-now amounts; share denoms move only with join/exit/bond/unbond events."),
+    "C18": e1("§3 C18", "Fault profile (expiring price feeds, gaps up to 40 days, fees in any denom, tiny/lopsided pools, parameters at the edge of what validation admits): FinalizeBlock and Commit must not return an error or panic, and blocks containing failed transactions leave the pool/share/vault books balanced."),
 }
